@@ -12,7 +12,7 @@ INV_RR_INNER = ("0 <= j and j <= LEN(ranges) and 0 <= i and i < LEN(ranges) and 
                 "and CODE(start_i) == CODE(ranges[i][0]) and CODE(end_i) == CODE(ranges[i][1])")
 C[K + "__or.<locals>.reduce_ranges"] = dict(
     params={"ranges": "rangestrs"}, requires="WFR(ranges)", raises={}, lists="concrete",
-    ensures="VEQ(RV(result), RV(ranges))",
+    ensures="WFR(result) and VEQ(RV(result), RV(ranges))",
     loops={1: {"inv": INV_RR_OUTER, "kinds": {"ranges": "pair"}},
            2: {"inv": INV_RR_INNER, "kinds": {"ranges": "pair"}}},
     frame=[])
@@ -23,7 +23,7 @@ INV_RC_OUTER = ("0 <= i and i <= LEN(chars) and WFR(ranges) and WFC(chars) and "
 INV_RC_INNER = ("LSAME(ranges, ENTRY['ranges']) and LSAME(chars, ENTRY['chars']) and i == ENTRY['i']")
 C[K + "__or.<locals>.reduce_chars"] = dict(
     params={"ranges": "rangestrs", "chars": "charlist"}, requires="WFR(ranges) and WFC(chars)", raises={}, lists="concrete",
-    ensures="VEQ(VU(RV(result[0]), CV(result[1])), VU(RV(ranges), CV(chars)))",
+    ensures="WFR(result[0]) and WFC(result[1]) and VEQ(VU(RV(result[0]), CV(result[1])), VU(RV(ranges), CV(chars)))",
     loops={1: {"inv": INV_RC_OUTER, "kinds": {"ranges": "pair", "chars": "char"}},
            2: {"inv": INV_RC_INNER, "kinds": {"ranges": "pair", "chars": "char"}}},
     frame=[])
@@ -36,7 +36,7 @@ INV_SR_INNER = ("LSAME(ranges1, ENTRY['ranges1']) and i == ENTRY['i'] and PREFIX
 INV_SR_FINAL = ("VEQ(VU(RV(ranges), CV(chars)), PREFIXV(ranges1, K)) and WFC(chars)")
 C[K + "__sub.<locals>.subtract_ranges"] = dict(
     params={"ranges1": "rangestrs", "ranges2": "rangestrs"}, requires="WFR(ranges1) and WFR(ranges2)", raises={}, lists="concrete",
-    ensures="VEQ(VU(RV(result[0]), CV(result[1])), VM(RV(ranges1), RV(ranges2)))",
+    ensures="WFR(result[0]) and WFC(result[1]) and VEQ(VU(RV(result[0]), CV(result[1])), VM(RV(ranges1), RV(ranges2)))",
     loops={1: {"inv": INV_SR_OUTER, "kinds": {"ranges1": "pair"}},
            2: {"inv": INV_SR_INNER, "kinds": {"ranges1": "pair"}},
            3: {"inv": INV_SR_FINAL, "kinds": {"ranges": "rangestr", "chars": "char"}}},
